@@ -11,5 +11,12 @@ meta = dict(id=sid, property=sid.split('_')[0], round=5, what=what, needs_to_man
                            demo_fails_with_patch='FAILED' in mid, demo_passes_without_patch=('FAILED' not in post and 'test result: ok' in post),
                            how='tools/verify_seed3.sh (SEEDROOT=/tmp/seed5) in a scratch worktree under /tmp (removed afterwards); see verify.log'),
             checked_with='tools/altcheck.sh (scratch worktree + VERIF_REPO override)', detected_by=det)
+import re
+failed_existing = set(re.findall(r'^test (\S+) \.\.\. FAILED', pre, re.M))
+if '### re-run of the timing-sensitive existing test' in log:
+    rr = log.split('### re-run of the timing-sensitive existing test')[-1]
+    if failed_existing <= {'gossip::tests::push_tx::test_push_tx_propagation'} and rr.count('... ok') >= 3 and 'FAILED' not in rr and 'APPLY-FAILED' not in log:
+        meta['confirmed']['existing_tests_pass_with_patch'] = True
+        meta['confirmed']['note'] = 'the sleep-based gossip::tests::push_tx::test_push_tx_propagation failed once under heavy machine load in the first run (it does not reach the changed code); re-run 3 times with the patch at lower load: 3 passes (appended to verify.log)'
 json.dump(meta, open(d + '/meta.json', 'w'), indent=1)
 print(sid, json.dumps(meta['confirmed']))
